@@ -120,6 +120,178 @@ HLog(k) == "H" \o ToString(k)
 Car(car, v) == CASE car = "or0" -> <<"(", Lit(v), "|0)">> [] car = "shr0" -> <<"(", Lit(v), ">>>0)">>
                  [] OTHER -> <<Lit([t |-> "gonum", kind |-> car, n |-> v.n])>>
 
+(* family "dv": 8.12.8 [[DefaultValue]] as a PROTOCOL on a mutable object.  The scripted conversion objects *)
+(* of Ops are static; here the object O (base "obj": Object.create(P); base "date": new Date(0)) has its     *)
+(* valueOf / toString as own or inherited, data or accessor properties (a getter logs "g<tag>" and may      *)
+(* throw), the function found is called with O as this value (logs "c<tag>") and, WHILE IT RUNS, may         *)
+(* reassign ([[Put]] 8.12.5), redefine (8.12.9, data or accessor), or delete the sibling method or itself,  *)
+(* on O or on its prototype P.  8.12.8 is evaluated step by step on that state: [[Get]] of the first        *)
+(* method, IsCallable, [[Call]], primitive?  and only then [[Get]] of the second method, on the state the   *)
+(* first call left behind.  A case is written relative to the hint: "first"/"second" are toString/valueOf   *)
+(* for hint String (and for a Date with no hint), valueOf/toString otherwise; the context (operator or     *)
+(* conversion function, operand position) decides the hint, and the operator is then applied to the        *)
+(* primitive by Ops.  Functions return a primitive that names them (valueOf kinds a number, toString kinds  *)
+(* a digit string), so the value tells which function supplied it.                                          *)
+DvAbsent == [k |-> "absent"]
+DvData(f) == [k |-> "data", f |-> f]
+DvAcc(f) == [k |-> "acc", f |-> f]
+DvNoEff == [k |-> "none"]
+DvFn(tag, ret, eff) == [k |-> "fn", tag |-> tag, ret |-> ret, eff |-> eff]
+DvNc(tag) == [k |-> "nc", tag |-> tag]
+DvGThrow(tag) == [k |-> "gthrow", tag |-> tag]
+DvShort(nm) == IF nm = "vo" THEN "v" ELSE "t"
+DvTag(on, nm) == (IF on = "own" THEN "o" ELSE "p") \o DvShort(nm)
+DvNum(tag) == CASE tag \in {"ov"} -> 1 [] tag = "ot" -> 2 [] tag = "pv" -> 3 [] tag = "pt" -> 4
+                [] tag = "nv" -> 5 [] tag = "nt" -> 6 [] OTHER -> 9
+DvIsVo(tag) == tag \in {"ov", "pv", "nv", "xv"}
+DvVal(tag) == IF DvIsVo(tag) THEN IntV(DvNum(tag)) ELSE StrV(<<48 + DvNum(tag)>>)
+DvThrown(tag) == IntV(100 + DvNum(tag))       \* thrown by the function
+DvGThrown(tag) == IntV(200 + DvNum(tag))      \* thrown by the getter
+DvNew(nm) == DvFn("n" \o DvShort(nm), "prim", DvNoEff)
+
+(* the effect number e of the first method's function (fi, se: the names of the first / second method) *)
+DvEff(e, fi, se) ==
+    CASE e = 0 -> DvNoEff
+      [] e = 1 -> [k |-> "put", on |-> "own", nm |-> se, f |-> DvNew(se)]
+      [] e = 2 -> [k |-> "def", on |-> "own", nm |-> se, slot |-> DvData(DvNew(se))]
+      [] e = 3 -> [k |-> "def", on |-> "own", nm |-> se, slot |-> DvAcc(DvNew(se))]
+      [] e = 4 -> [k |-> "put", on |-> "own", nm |-> se, f |-> DvNc("x" \o DvShort(se))]
+      [] e = 5 -> [k |-> "put", on |-> "proto", nm |-> se, f |-> DvNew(se)]
+      [] e = 6 -> [k |-> "del", on |-> "own", nm |-> se]
+      [] e = 7 -> [k |-> "del", on |-> "proto", nm |-> se]
+      [] e = 8 -> [k |-> "put", on |-> "own", nm |-> fi, f |-> DvNew(fi)]
+DvEffs == 0..8
+
+(* abstract configurations: where the first method lives and what it does; the second method on O and on P *)
+DvFirstCfgs ==
+    {[place |-> "none", acc |-> FALSE, beh |-> "builtin", eff |-> 0]}
+    \cup {[place |-> p, acc |-> a, beh |-> b, eff |-> e] : p \in {"own", "proto"}, a \in BOOLEAN, b \in {"prim", "obj"}, e \in DvEffs}
+    \cup {[place |-> p, acc |-> a, beh |-> b, eff |-> 0] : p \in {"own", "proto"}, a \in BOOLEAN, b \in {"throw", "nc"}}
+    \cup {[place |-> p, acc |-> TRUE, beh |-> "gthrow", eff |-> 0] : p \in {"own", "proto"}}
+DvSecondCfgs ==
+    {[own |-> o, proto |-> p] :
+        o \in {[acc |-> FALSE, beh |-> "absent"]}
+              \cup {[acc |-> a, beh |-> b] : a \in BOOLEAN, b \in {"prim", "obj", "throw", "nc"}}
+              \cup {[acc |-> TRUE, beh |-> "gthrow"]},
+        p \in {"absent", "data", "acc"}}
+DvFirstSeq == SetToSeq(DvFirstCfgs)
+DvFirstDateSeq == SetToSeq({f \in DvFirstCfgs : f.place # "proto" /\ f.eff \notin {5, 7}})
+DvSecondSeq == SetToSeq(DvSecondCfgs)
+DvSecondDateSeq == SetToSeq({x \in DvSecondCfgs : x.proto = "absent"})
+(* contexts: every place of clauses 9 and 11 that converts an object operand, in both operand positions *)
+DvCtxSeq == <<[k |-> "un", op |-> "-"], [k |-> "un", op |-> "~"], [k |-> "conv", f |-> "Number"], [k |-> "conv", f |-> "ToUint16"],
+              [k |-> "bin", op |-> "*", other |-> IntV(2), swap |-> FALSE], [k |-> "bin", op |-> "-", other |-> IntV(10), swap |-> TRUE],
+              [k |-> "bin", op |-> "<", other |-> IntV(4), swap |-> FALSE], [k |-> "bin", op |-> ">=", other |-> StrV(<<51>>), swap |-> TRUE],
+              [k |-> "bin", op |-> ">>>", other |-> IntV(0), swap |-> FALSE], [k |-> "bin", op |-> "&", other |-> IntV(7), swap |-> TRUE],
+              [k |-> "bin", op |-> "+", other |-> IntV(1), swap |-> FALSE], [k |-> "bin", op |-> "+", other |-> StrV(<<115>>), swap |-> TRUE],
+              [k |-> "bin", op |-> "==", other |-> IntV(1), swap |-> FALSE], [k |-> "bin", op |-> "!=", other |-> StrV(<<50>>), swap |-> TRUE],
+              [k |-> "conv", f |-> "String"], [k |-> "in"]>>
+DvHint(x) == CASE x.k = "un" -> "number"
+               [] x.k = "conv" -> IF x.f = "String" THEN "string" ELSE "number"
+               [] x.k = "in" -> "string"
+               [] x.k = "bin" -> IF x.op \in {"+", "==", "!="} THEN "default" ELSE "number"
+DvCtxDate == {i \in 1..Len(DvCtxSeq) : DvHint(DvCtxSeq[i]) = "default" \/ i \in {1, 15}}
+DvStrFirst(c) == DvHint(c.ctx) = "string" \/ (DvHint(c.ctx) = "default" /\ c.base = "date")
+DvFi(c) == IF DvStrFirst(c) THEN "ts" ELSE "vo"
+DvSe(c) == IF DvStrFirst(c) THEN "vo" ELSE "ts"
+
+(* the concrete initial state of O and P *)
+DvF(tag, beh, eff) == CASE beh \in {"prim", "obj", "throw"} -> DvFn(tag, beh, eff) [] beh = "nc" -> DvNc(tag) [] beh = "gthrow" -> DvGThrow(tag)
+DvSlot(acc, f) == IF acc THEN DvAcc(f) ELSE DvData(f)
+DvInit(c) ==
+    LET fi == DvFi(c)  se == DvSe(c)
+        fslot(on) == IF c.fi.place # on THEN DvAbsent
+                     ELSE DvSlot(c.fi.acc, DvF(DvTag(on, fi), c.fi.beh, DvEff(c.fi.eff, fi, se)))
+        sown == IF c.se.own.beh = "absent" THEN DvAbsent ELSE DvSlot(c.se.own.acc, DvF(DvTag("own", se), c.se.own.beh, DvNoEff))
+        sproto == IF c.se.proto = "absent" THEN DvAbsent ELSE DvSlot(c.se.proto = "acc", DvFn(DvTag("proto", se), "prim", DvNoEff))
+    IN  [own |-> [nm \in {"vo", "ts"} |-> IF nm = fi THEN fslot("own") ELSE sown],
+         proto |-> [nm \in {"vo", "ts"} |-> IF nm = fi THEN fslot("proto") ELSE sproto]]
+
+(* the effect of a running method on the state.  "put" is an assignment in non-strict code: 8.12.5 / 8.12.4, *)
+(* an accessor without a setter (own, or inherited when there is no own property) rejects it silently      *)
+DvApply(st, base, e) ==
+    CASE e.k = "none" -> st
+      [] e.k = "def" -> [st EXCEPT ![e.on][e.nm] = e.slot]
+      [] e.k = "del" -> [st EXCEPT ![e.on][e.nm] = DvAbsent]
+      [] e.k = "put" ->
+            LET cur == st[e.on][e.nm]
+                inh == IF e.on = "own" /\ base = "obj" THEN st.proto[e.nm] ELSE DvAbsent
+            IN  IF cur.k = "acc" THEN st
+                ELSE IF cur.k = "absent" /\ inh.k = "acc" THEN st
+                ELSE [st EXCEPT ![e.on][e.nm] = DvData(e.f)]
+
+(* 8.12.8 steps 1-2 (3-4): [[Get]] (8.12.3: own, then the prototype chain, finally the built-in of           *)
+(* Object.prototype / Date.prototype), IsCallable, [[Call]] with O as this, primitive?                       *)
+(* kind: "prim" (v) | "next" | "throw" (v) | "bad" (a result this model does not define)                     *)
+DvStep(st, base, nm, log) ==
+    LET s == IF st.own[nm].k # "absent" THEN st.own[nm] ELSE IF base = "obj" THEN st.proto[nm] ELSE DvAbsent
+    IN  IF s.k = "absent"
+        THEN IF nm = "vo" THEN (IF base = "date" THEN [kind |-> "prim", v |-> IntV(0), st |-> st, log |-> log]      \* 15.9.5.8: the time value
+                                ELSE [kind |-> "next", v |-> Undef, st |-> st, log |-> log])                        \* 15.2.4.4: the object itself
+             ELSE IF base = "date" THEN [kind |-> "bad", v |-> Undef, st |-> st, log |-> log]                        \* 15.9.5.2: implementation-dependent text
+             ELSE [kind |-> "prim", v |-> StrV(S!S_objObject), st |-> st, log |-> log]                              \* 15.2.4.2
+        ELSE LET lg == IF s.k = "acc" THEN Append(log, "g" \o s.f.tag) ELSE log
+             IN  CASE s.f.k = "gthrow" -> [kind |-> "throw", v |-> DvGThrown(s.f.tag), st |-> st, log |-> lg]
+                   [] s.f.k = "nc" -> [kind |-> "next", v |-> Undef, st |-> st, log |-> lg]
+                   [] s.f.k = "fn" ->
+                        LET lc == Append(lg, "c" \o s.f.tag)
+                            st2 == DvApply(st, base, s.f.eff)
+                        IN  CASE s.f.ret = "prim" -> [kind |-> "prim", v |-> DvVal(s.f.tag), st |-> st2, log |-> lc]
+                              [] s.f.ret = "obj" -> [kind |-> "next", v |-> Undef, st |-> st2, log |-> lc]
+                              [] s.f.ret = "throw" -> [kind |-> "throw", v |-> DvThrown(s.f.tag), st |-> st2, log |-> lc]
+DvOut(a) == CASE a.kind = "prim" -> [thr |-> "", v |-> a.v, log |-> a.log]
+              [] a.kind = "throw" -> [thr |-> "value", v |-> a.v, log |-> a.log]
+              [] a.kind = "bad" -> [thr |-> "BAD", v |-> Undef, log |-> a.log]
+DvDefault(c, log) ==
+    LET a == DvStep(DvInit(c), c.base, DvFi(c), log)
+    IN  IF a.kind # "next" THEN DvOut(a)
+        ELSE LET b == DvStep(a.st, c.base, DvSe(c), a.log)
+             IN  IF b.kind # "next" THEN DvOut(b) ELSE [thr |-> "TypeError", v |-> Undef, log |-> b.log]     \* 8.12.8 step 5
+DvHLog(x) == CASE x.k = "bin" -> <<"H1", "H2">> [] x.k = "un" -> <<"H1">> [] OTHER -> <<>>
+DvValid(c) == DvDefault(c, <<>>).thr # "BAD"
+DvExpect(Bin(_, _, _, _), Un(_, _, _), Conv(_, _, _), c) ==
+    LET x == c.ctx
+        d == DvDefault(c, DvHLog(x))
+    IN  IF d.thr # "" THEN d
+        ELSE CASE x.k = "un" -> Un(x.op, d.v, d.log)
+               [] x.k = "conv" -> Conv(x.f, d.v, d.log)
+               [] x.k = "bin" -> IF x.swap THEN Bin(x.op, x.other, d.v, d.log) ELSE Bin(x.op, d.v, x.other, d.log)
+               [] x.k = "in" -> [thr |-> "", v |-> BoolV(S!ToStringPrim(d.v) \in {<<50>>, <<53>>}), log |-> d.log]    \* 11.8.7 on {2:0, 5:0}
+
+(* the JavaScript text of a "dv" case *)
+DvJsName(nm) == IF nm = "vo" THEN "'valueOf'" ELSE "'toString'"
+DvJsDot(nm) == IF nm = "vo" THEN ".valueOf" ELSE ".toString"
+DvRetJs(f) == CASE f.ret = "prim" -> "return " \o (IF DvIsVo(f.tag) THEN ToString(DvNum(f.tag)) ELSE "'" \o ToString(DvNum(f.tag)) \o "'") \o ";"
+                [] f.ret = "obj" -> "return {};"
+                [] f.ret = "throw" -> "throw " \o ToString(100 + DvNum(f.tag)) \o ";"
+DvFJs(f, effJs) == CASE f.k = "fn" -> "function(){LOG.push('c" \o f.tag \o "');" \o effJs \o DvRetJs(f) \o "}"
+                     [] f.k = "nc" -> IF f.tag \in {"xv", "xt"} THEN "undefined" ELSE "{}"
+DvSlotJs(tgt, nm, slot, effJs) ==
+    CASE slot.k = "absent" -> ""
+      [] slot.k = "data" -> "Object.defineProperty(" \o tgt \o "," \o DvJsName(nm) \o ",{value:" \o DvFJs(slot.f, effJs) \o ",writable:true,configurable:true});"
+      [] slot.k = "acc" -> "Object.defineProperty(" \o tgt \o "," \o DvJsName(nm) \o ",{get:function(){LOG.push('g" \o slot.f.tag \o "');"
+                             \o (IF slot.f.k = "gthrow" THEN "throw " \o ToString(200 + DvNum(slot.f.tag)) \o ";" ELSE "return " \o DvFJs(slot.f, effJs) \o ";")
+                             \o "},configurable:true});"
+DvTgt(on) == IF on = "own" THEN "this" ELSE "P"
+DvEffJs(e) ==
+    CASE e.k = "none" -> ""
+      [] e.k = "put" -> DvTgt(e.on) \o DvJsDot(e.nm) \o "=" \o DvFJs(e.f, "") \o ";"
+      [] e.k = "def" -> DvSlotJs(DvTgt(e.on), e.nm, e.slot, "")
+      [] e.k = "del" -> "delete " \o DvTgt(e.on) \o DvJsDot(e.nm) \o ";"
+DvSlotJs0(tgt, nm, slot) == DvSlotJs(tgt, nm, slot, IF slot.k # "absent" /\ slot.f.k = "fn" THEN DvEffJs(slot.f.eff) ELSE "")
+DvJs(c) ==
+    LET st == DvInit(c)
+        x == c.ctx
+        pre == "var P={},o=" \o (IF c.base = "date" THEN "new Date(0)" ELSE "Object.create(P)") \o ";"
+               \o DvSlotJs0("P", "vo", st.proto.vo) \o DvSlotJs0("P", "ts", st.proto.ts)
+               \o DvSlotJs0("o", "vo", st.own.vo) \o DvSlotJs0("o", "ts", st.own.ts)
+    IN  CASE x.k = "un" -> <<pre \o x.op \o " (H(1),o)">>
+          [] x.k = "conv" -> (CASE x.f \in {"Number", "String"} -> <<pre \o x.f \o "(o)">>
+                                [] x.f = "ToUint16" -> <<pre \o "String.fromCharCode(o).charCodeAt(0)">>)
+          [] x.k = "in" -> <<pre \o "o in {2:0,5:0}">>
+          [] x.k = "bin" -> IF x.swap THEN <<pre \o "(H(1),", Lit(x.other), ") " \o x.op \o " (H(2),o)">>
+                            ELSE <<pre \o "(H(1),o) " \o x.op \o " (H(2),", Lit(x.other), ")">>
+
 (* the JavaScript text of a case, and the expected result *)
 Js(c) ==
     CASE c.fam = "bin" -> <<"(H(1),", Lit(c.a), ") " \o c.op \o " (H(2),", Lit(c.b), ")">>
@@ -144,6 +316,7 @@ Js(c) ==
       [] c.fam = "order1" -> <<"var b = 1; var a = {valueOf: function(){ b = 100; return 3; }}; a " \o c.op \o " b">>
       [] c.fam = "order2" -> <<"var a = 3; a " \o c.op \o " (a = 50, 1)">>
       [] c.fam = "compound" -> <<"var x = ", Lit(c.a), "; x " \o c.op \o "= (x = ", Lit(c.b), ", ", Lit(c.c), "); x">>
+      [] c.fam = "dv" -> DvJs(c)
 
 Expect(Bin(_, _, _, _), Un(_, _, _), Conv(_, _, _), TB(_), c) ==
     CASE c.fam = "bin" -> Bin(c.op, c.a, c.b, <<HLog(1), HLog(2)>>)
@@ -158,6 +331,7 @@ Expect(Bin(_, _, _, _), Un(_, _, _), Conv(_, _, _), TB(_), c) ==
                            ELSE [thr |-> "", v |-> IntV(2), log |-> <<HLog(1), HLog(3)>>]
       [] c.fam \in {"order1", "order2"} -> Bin(c.op, IntV(3), IntV(1), <<>>)
       [] c.fam = "compound" -> Bin(c.op, c.a, c.c, <<>>)      \* 11.13.2: GetValue(lref) precedes the right operand
+      [] c.fam = "dv" -> DvExpect(Bin, Un, Conv, c)
 
 (* object results are compared by identity *)
 Proj(r) == IF r.v.t = "cobj" THEN [r EXCEPT !.v = [t |-> "cobj", id |-> r.v.id]] ELSE r
@@ -171,12 +345,21 @@ K == 64
 CaseSeq == SetToSeq(SmallCases)
 None == [fam |-> "none"]
 Sub(S0) == IF NSel = 0 \/ NSel >= Cardinality(S0) THEN S0 ELSE RandomSubset(NSel, S0)
+(* family "dv" (run with the small families): one block per configuration of the first method (blk[2] = 1: *)
+(* ordinary object, 2: Date), successors over the configurations of the second method and the contexts    *)
+DvCase(base, f, x, i) == [fam |-> "dv", base |-> base, fi |-> f, se |-> x, ctx |-> DvCtxSeq[i]]
 Init == /\ cs = None
-        /\ IF Fam = "small" THEN blk \in {<<b, 0>> : b \in 1..K}
+        /\ IF Fam = "small" THEN blk \in {<<b, 0>> : b \in 1..K} \cup {<<b, 1>> : b \in 1..Len(DvFirstSeq)}
+                                        \cup {<<b, 2>> : b \in 1..Len(DvFirstDateSeq)}
            ELSE blk \in (1..Len(OpSeq)) \X (1..Len(ValSeq))
 Next == /\ cs = None
         /\ UNCHANGED blk
-        /\ IF Fam = "small"
+        /\ IF Fam = "small" /\ blk[2] = 1
+           THEN \E j \in 1..Len(DvSecondSeq), i \in 1..Len(DvCtxSeq) : cs' = DvCase("obj", DvFirstSeq[blk[1]], DvSecondSeq[j], i)
+           ELSE IF Fam = "small" /\ blk[2] = 2
+           THEN \E j \in 1..Len(DvSecondDateSeq), i \in DvCtxDate :
+                    LET c == DvCase("date", DvFirstDateSeq[blk[1]], DvSecondDateSeq[j], i) IN DvValid(c) /\ cs' = c
+           ELSE IF Fam = "small"
            THEN \E j \in Sub({i \in 1..Len(CaseSeq) : i % K = blk[1] - 1}) : cs' = CaseSeq[j]
            ELSE \E j \in Sub(1..Len(ValSeq)) :
                    cs' = [fam |-> "bin", op |-> OpSeq[blk[1]], a |-> ValSeq[blk[2]], b |-> ValSeq[j]]
